@@ -33,7 +33,18 @@ func genC14(seed uint64, tier string, idx int) *Plan {
 		a.Ops = append(a.Ops, Op{K: "quiet"}, Op{K: "sleep", D: int64(d)})
 	}
 	hb := func() {
-		send(g.mkFrame(ci, 0x0002, g.randSerial(), nil))
+		f := g.mkFrame(ci, 0x0002, g.randSerial(), nil)
+		if g.r.chance(15) {
+			// the frame arrives in two TCP segments, the second a little later: the first one is "inbound data" too
+			frames = append(frames, f)
+			k := 1 + g.r.intn(len(f.Raw)-1)
+			a.Ops = append(a.Ops, Op{K: "send", Data: f.Raw[:k], Frame: len(frames) - 1}, Op{K: "quiet"},
+				Op{K: "sleep", D: int64(time.Duration(200+g.r.intn(1500)) * time.Millisecond)},
+				Op{K: "send", Data: f.Raw[k:], End: true, Frame: len(frames)}, Op{K: "quiet"})
+			g.p.Faults = append(g.p.Faults, "seg.split_with_pause")
+			return
+		}
+		send(f)
 		a.Ops = append(a.Ops, Op{K: "quiet"})
 	}
 	delta := func() time.Duration {
@@ -200,7 +211,7 @@ func checkC14(r *Result) []Violation {
 		delivered := 0
 		completeOK := map[int]bool{}  // transfer index -> may complete
 		completeStep := map[int]int{} // transfer index -> step of the delivery that completed it
-		// The model walks the deliveries (every chunk is exactly one frame in C14 plans, read by the server at
+		// The model walks the deliveries (a chunk is one frame or, now and then, a part of one; read by the server at
 		// the simulated instant it was delivered) and produces, per inbound frame, the group of re-requests that
 		// frame makes due. The reader hands them to the writer through a queue, so they appear on the socket in
 		// this order, possibly after later frames have been read; inside one group the order is not prescribed.
@@ -216,8 +227,12 @@ func checkC14(r *Result) []Violation {
 			if ambiguous {
 				break
 			}
-			if e.K != KDeliver || e.C != ci || e.Ref <= delivered {
+			if e.K != KDeliver || e.C != ci {
 				continue
+			}
+			// every delivery is inbound data, also one that completes no frame (the first segment of a split frame)
+			if e.Ref < delivered {
+				e.Ref = delivered
 			}
 			now := e.T
 			for k := delivered; k < e.Ref && k < len(frames); k++ {
